@@ -231,14 +231,38 @@ struct Call
     std::string arch;
     int a;
     double b;
+    int id;
+    int copies;
+};
+// an argument handed over as an rvalue: perfect forwarding reaches a by-value parameter without a single copy
+struct Tracked
+{
+    int id;
+    int copies = 0;
+    bool moved_from = false;
+    explicit Tracked(int i)
+        : id(i)
+    {
+    }
+    Tracked(const Tracked& o)
+        : id(o.id)
+        , copies(o.copies + 1)
+    {
+    }
+    Tracked(Tracked&& o) noexcept
+        : id(o.id)
+        , copies(o.copies)
+    {
+        o.moved_from = true;
+    }
 };
 static std::vector<Call> g_calls;
 struct Functor
 {
     template <class Arch>
-    long operator()(Arch, int a, double& b, const std::string& tag) const
+    long operator()(Arch, int a, double& b, const std::string& tag, Tracked t) const
     {
-        g_calls.push_back({ Arch::name(), a, b });
+        g_calls.push_back({ Arch::name(), a, b, t.id, t.copies });
         b += 1.0; // visible through the forwarded reference
         return (long)a * 3 + (long)tag.size();
     }
@@ -274,7 +298,8 @@ static bool dispatch_case(Context& cx, uint32_t c, int a, double b, const std::s
     g_calls.clear();
     double bref = b;
     auto d = xsimd::dispatch<L>(Functor {});
-    long r = d(a, bref, tag);
+    Tracked tr(a ^ 0x5a5a);
+    long r = d(a, bref, tag, std::move(tr));
     cx.st.executions++;
     std::string why;
     if (g_calls.size() != 1)
@@ -285,6 +310,8 @@ static bool dispatch_case(Context& cx, uint32_t c, int a, double b, const std::s
         why = "arguments not forwarded unchanged";
     else if (bref != b + 1.0)
         why = "reference argument not forwarded by reference";
+    else if (g_calls[0].id != (a ^ 0x5a5a) || g_calls[0].copies != 0 || !tr.moved_from)
+        why = "rvalue argument not forwarded as an rvalue (copied " + std::to_string(g_calls[0].copies) + " times, source " + (tr.moved_from ? "moved from" : "left intact") + ")";
     else if (r != (long)a * 3 + (long)tag.size())
         why = "result of the functor not returned";
     if (!why.empty())
